@@ -6,7 +6,13 @@ def register(add, PENDING):
         "C16": "simulation target per DESIGN.md 6/9 (storage faults on template files); check not built yet, therefore not claimed",
         "C17": "simulation target per DESIGN.md 6 (storage and I/O faults on artifact files); check not built yet, therefore not claimed",
         "C18": "simulation target per DESIGN.md 5 real mode; check not built yet, therefore not claimed",
-        "C23": "simulation target per DESIGN.md 6 (crash/fault enumeration of the publisher); check not built yet, therefore not claimed",
         "C33": "simulation target per DESIGN.md 8 (allocator seam); check not built yet, therefore not claimed",
         "C36": "simulation target per DESIGN.md 5 real mode; check not built yet, therefore not claimed",
     })
+
+    STORE_NOTE = ("Trusted: the harness (libc filesystem interposition with a seam self-test at every start, child-process protocol, directory-tree oracles), "
+                  "tmpfs as the disk, and the crash model 'process death' (completed system calls are durable; power loss is not modelled because the code never fsyncs and the property does not claim it).")
+    add("C23", "fault_enumeration", "deterministic fault injection at the system-call seam: every call of the publish/rollback sequence failed or turned into process death, singly and in adaptive pairs, plus seeded multi-run histories and full-pipeline runs",
+        "DESIGN.md 6, 9/C23",
+        "Complete enumeration of single faults (crash, short write, 11 errnos) and adaptive fault pairs over every system call of the real publish routine from five initial states, judged on the real directory tree after each child exit (no mix, no lost copy, success reported iff live, failed generation leaves nothing behind, progress after faults); seeded histories of several builder runs over accumulated debris and runs of the full generate_all_circuit_binaries pipeline are sampled.",
+        STORE_NOTE)
